@@ -13,9 +13,9 @@ import (
 	"runtime"
 	"sort"
 	"strings"
+	"sync/atomic"
 	"time"
 
-	"github.com/rbell/toolchest/storage"
 	"verifharness/internal/cw"
 )
 
@@ -45,7 +45,7 @@ func (o opt) String() string {
 }
 
 type runner struct {
-	c       *storage.FifoMapCache[int, int]
+	c       cacheI
 	cancel  context.CancelFunc
 	o       opt
 	U       int
@@ -57,27 +57,22 @@ type runner struct {
 	lastLen int
 }
 
-func newRunner(o opt, capacity, U int) *runner {
+func newRunner(o opt, capacity, U int, preCancel bool, variant int) *runner {
 	ctx, cancel := context.WithCancel(context.Background())
-	opts := []func(*storageCfg){}
-	_ = opts
-	var c *storage.FifoMapCache[int, int]
-	if o.balanced {
-		c = storage.NewFifoMapCache[int, int](ctx, capacity, storage.WithSweepFrequency(time.Hour), storage.WithBalancedPartitions(o.nRoot, o.minimum))
-	} else {
-		c = storage.NewFifoMapCache[int, int](ctx, capacity, storage.WithSweepFrequency(time.Hour))
+	if preCancel {
+		cancel() // a cache constructed on a context that is already done
 	}
+	c := newCache(ctx, o, capacity, variant)
 	r := &runner{c: c, cancel: cancel, o: o, U: U, nextVal: 100, tags: map[string]bool{}}
-	hold(c)
+	c.hold()
 	return r
 }
 
-type storageCfg struct{}
-
-// close releases the sweeps.  The construction context is deliberately NOT cancelled: the background ticker
+// close releases the sweeps.  The construction context is deliberately NOT cancelled here: the background ticker
 // (period one hour) just stays parked, so that a defect in the cancellation path (property C08's business)
-// cannot disturb the sequential checks.
-func (r *runner) close() { release(r.c); _ = r.cancel }
+// cannot disturb the sequential checks.  Only the small "cancelled-context" family cancels (label k / K): the
+// cache's operations, explicit Sweep included, do not depend on the context, so the model ignores the label.
+func (r *runner) close() { r.c.release(); _ = r.cancel }
 
 // waitSweepers waits until no goroutine is inside (or about to enter) FifoMapCache.Sweep
 func waitSweepers() {
@@ -146,10 +141,10 @@ func (r *runner) del(k int) {
 }
 func (r *runner) sweep() {
 	before := r.c.Len()
-	release(r.c)
+	r.c.release()
 	r.c.Sweep()
 	waitSweepers()
-	hold(r.c)
+	r.c.hold()
 	r.emit("HSweep", "Sweep()")
 	if r.c.Len() < before {
 		r.tags["eviction"] = true
@@ -161,6 +156,7 @@ func (r *runner) clear() {
 	r.emit("HClear", "Clear()")
 	r.tags["clear"] = true
 	r.lastLen = 0
+	r.obs() // C13: an empty cache of unchanged capacity
 }
 func (r *runner) resize(n int) {
 	if !hooked {
@@ -171,13 +167,13 @@ func (r *runner) resize(n int) {
 	// first: Resize is therefore exercised on swept states only (the theorems cover un-swept ones).
 	r.sweep()
 	r.obs()
-	before := layout(r.c)
+	before := r.c.layout()
 	lb := r.c.Len()
-	release(r.c)
+	r.c.release()
 	r.c.Resize(n)
 	waitSweepers()
-	hold(r.c)
-	after := layout(r.c)
+	r.c.hold()
+	after := r.c.layout()
 	where := map[int]int{}
 	for i, p := range after {
 		for _, k := range p {
@@ -220,10 +216,27 @@ func runHist(w *cw.Writer, mon int, h hist, tag string) {
 	if nshards > 1 && histCounter%nshards != shard {
 		return // another process of this run executes this history
 	}
-	r := newRunner(h.o, h.cap, h.U)
+	pre := len(h.prog) > 0 && h.prog[0] == "K"
+	r := newRunner(h.o, h.cap, h.U, pre, histCounter/max(nshards, 1))
 	defer r.close()
+	// watchdog: a sequential history whose operation never returns (a lock left held, a lost wake-up) is a failing
+	// input in its own right; report it with the operation instead of hanging until the runner's time limit
+	var cur atomic.Value
+	cur.Store("new cache")
+	finished := make(chan struct{})
+	defer close(finished)
+	go func() {
+		select {
+		case <-finished:
+		case <-time.After(30 * time.Second):
+			fmt.Fprintf(os.Stderr, "BLOCKED: operation %q of the sequential history [%s] (option %v, capacity %d) did not return within 30s; observed so far: %v\n",
+				cur.Load(), strings.Join(h.prog, " "), h.o, h.cap, r.desc)
+			os.Exit(3)
+		}
+	}()
 	r.obs() // block 0: a new cache (Capacity rounding, empty views)
-	for _, p := range h.prog {
+	for i, p := range h.prog {
+		cur.Store(fmt.Sprintf("#%d %s", i, p))
 		switch p[0] {
 		case 's':
 			r.set(atoi(p[1:]))
@@ -242,12 +255,18 @@ func runHist(w *cw.Writer, mon int, h hist, tag string) {
 			r.obs()
 		case 'r':
 			r.resize(atoi(p[1:]))
+		case 'k':
+			r.cancel()
+			r.desc = append(r.desc, "construction context cancelled")
+			time.Sleep(200 * time.Microsecond) // let the ticker goroutine leave
+		case 'K':
+			r.desc = append(r.desc, "constructed on an already cancelled context")
 		}
 		if !hooked && p[0] == 's' {
 			r.sweep()
 		}
 	}
-	tags := []string{tag, "opt:" + map[bool]string{false: "default", true: "balanced"}[h.o.balanced]}
+	tags := []string{tag, "opt:" + map[bool]string{false: "default", true: "balanced"}[h.o.balanced], "inst:" + r.c.inst()}
 	for t := range r.tags {
 		tags = append(tags, t)
 	}
@@ -255,7 +274,7 @@ func runHist(w *cw.Writer, mon int, h hist, tag string) {
 	trivial := !(r.tags["eviction"] || r.tags["resize"] || (r.tags["update"] && r.tags["delete-present"]))
 	w.Add(cw.Case{
 		Coq:  fmt.Sprintf("CHist %d %s %d %d %s", mon, h.o.coq(), h.cap, h.o.root(h.cap), cw.L(r.ops)),
-		Desc: map[string]any{"option": h.o.String(), "capacity": h.cap, "universe": h.U, "program": strings.Join(h.prog, " "), "observed": r.desc},
+		Desc: map[string]any{"instantiation": r.c.inst(), "option": h.o.String(), "capacity": h.cap, "universe": h.U, "program": strings.Join(h.prog, " "), "observed": r.desc},
 		Tags: tags, Key: fmt.Sprint(h.o, h.cap, h.prog), Trivial: trivial,
 	})
 }
@@ -407,6 +426,40 @@ func main() {
 		}
 		prog = append(prog, "w")
 		runHist(w, mon, hist{o, capacity, U, prog}, "many-partitions")
+	}
+	// cancelled-context family: the same kind of history on a cache whose construction context is cancelled before
+	// construction (K) or at some point of the history (k); kept small so that a defect of the cancellation path
+	// cannot flood the run with goroutines
+	for it := 0; it < 24; it++ {
+		capacity := []int{1, 4, 9, 10, 16, 25}[rng.Intn(6)]
+		o := randOpt(capacity)
+		U := 2*capacity + 3
+		n := 3*capacity + rng.Intn(20)
+		at := rng.Intn(n)
+		var prog []string
+		if it%3 == 0 {
+			prog = append(prog, "K")
+			at = -1
+		}
+		for i := 0; i < n; i++ {
+			if i == at {
+				prog = append(prog, "k")
+			}
+			switch x := rng.Intn(100); {
+			case x < 70:
+				prog = append(prog, fmt.Sprintf("s%d", 1+rng.Intn(U)))
+			case x < 78:
+				prog = append(prog, fmt.Sprintf("d%d", 1+rng.Intn(U)))
+			case x < 92:
+				prog = append(prog, "w")
+			case x < 95 && *prop != "C03":
+				prog = append(prog, fmt.Sprintf("r%d", o.minimum+rng.Intn(2*capacity+3)))
+			default:
+				prog = append(prog, "o")
+			}
+		}
+		prog = append(prog, "w")
+		runHist(w, mon, hist{o, capacity, U, prog}, "cancelled-context")
 	}
 	// C02: Capacity() rounding for every requested capacity in a range, every option
 	if *prop == "C02" {
